@@ -93,6 +93,9 @@ def gen_model(rng: random.Random, *, max_demes=6, time_scale=8, gen_times=(1, 2,
             start = start * (1 + 2.0 ** -40)
         d["ancestors"] = anc
         d["proportions"] = list(rng.choice(ANC_PROPS[len(anc)])) if anc else []
+        if len(anc) >= 2 and near and rng.random() < near * 2:
+            # proportions whose sum is close to, but not exactly, 1 (the data model accepts them)
+            d["proportions"][0] = Fraction(d["proportions"][0]) + Fraction(1, 2 ** 40) * rng.choice([1, -1])
         d["start_time"] = start
         lower = [t for t in grid if t < start]
         end = 0 if (not lower or rng.random() < 0.5) else rng.choice(lower)
@@ -110,6 +113,10 @@ def gen_model(rng: random.Random, *, max_demes=6, time_scale=8, gen_times=(1, 2,
                 es, sf = ss, "constant"
                 if allow_f2 and rng.random() < 0.04 and not ms_expressible:
                     sf = rng.choice(["exponential", "linear"])
+            elif near and r < 0.45 + near / 2:
+                # sizes that differ, but only by a relative 2^-40: still a size change
+                es = Fraction(ss) * (1 + Fraction(1, 2 ** 40))
+                sf = "exponential" if rng.random() < 0.7 else "linear"
             else:
                 es = rng.choice([s for s in SIZES if s != ss])
                 sf = "exponential" if (ms_expressible or rng.random() < 0.7) else "linear"
@@ -496,6 +503,10 @@ def features(m: Model) -> list:
         f.append("multi_epoch")
     if any(e["size_function"] != "constant" for d in m.demes for e in d["epochs"]):
         f.append("size_change")
+    if any(e["size_function"] != "constant" and abs(Fraction(e["start_size"]) - Fraction(e["end_size"])) < Fraction(1, 1000) for d in m.demes for e in d["epochs"]):
+        f.append("near_equal_sizes")
+    if any(d["proportions"] and sum(Fraction(x) for x in d["proportions"]) != 1 for d in m.demes):
+        f.append("near_one_proportions")
     if any("demes" in mg for mg in m.migrations):
         f.append("symmetric_migration")
     if any("source" in mg for mg in m.migrations):
